@@ -104,7 +104,7 @@ def validate(ctx, part, module, trace, reset_ev):
     out = []
     for kind, line in fails:
         rt, off = run_of(line)
-        out.append(dict(part=part, kind=kind, at=off, event=evs[line - 1], run=rt[:80]))
+        out.append(dict(part=part, kind=kind, at=off, event=evs[line - 1], run=rt[:400]))
     return dict(events=len(evs), runs=len(starts) - 1, states=v["distinct"], generated=v["generated"], fails=out, head=evs[:starts[1]] if len(starts) > 1 else evs[:12])
 
 
@@ -204,7 +204,8 @@ def run(ctx):
     if runs and div * 2 > len(runs):
         raise vlib.Inconclusive("more than half of the schedules had an unrealisable step (%d/%d)" % (div, len(runs)))
     ctx.assumptions += ["bolt v1 on both sides of the proxy; one upstream host, one multiplexed upstream connection per pool",
-                        "requests meant to be answered carry a 30 s timeout, requests meant to time out 120 ms (storm: 40-80 ms) and the upstream answers those only after the client saw the error",
+                        "requests meant to be answered carry a 20 s timeout, requests meant to time out 120 ms (storm: 40-80 ms) and the upstream answers those only after the client saw the error",
                         "an error reply is accepted as 'produced for the request' when the request had a short timeout, was outstanding during an upstream close, or was sent while the pool was reconnecting after a close",
                         "table layer: responses are dispatched through stream.Client.OnData on the driver's goroutine (no concurrent Dispatch)",
-                        "the harness peers use their own bolt v1 codec (harness/xc02), not the proxy's"]
+                        "the harness peers use their own bolt v1 codec (harness/xc02), not the proxy's",
+                        "a request without any reply is judged only in runs where the driver waited 30 s for it (first 3 such runs per driver process)"]
